@@ -365,6 +365,90 @@ fn c03_parents(r: &mut Rep) {
     }
 }
 
+
+// ---------------------------------------------------------------- c11: impl headers
+fn c11(r: &mut Rep) {
+    // deriving type's parameter list: (declaration, argument form, lifetimes, [(name, bound tokens)] of the type/const params)
+    let decls: [(&str, &str, &[&str], &[(&str, &str)]); 11] = [
+        ("", "", &[], &[]),
+        ("<'a>", "<'a>", &["'a"], &[]),
+        ("<T>", "<T>", &[], &[("T", "")]),
+        ("<T: Clone>", "<T>", &[], &[("T", "Clone")]),
+        ("<'a, T>", "<'a, T>", &["'a"], &[("T", "")]),
+        ("<'a, 'b, T: Clone + Default, U>", "<'a, 'b, T, U>", &["'a", "'b"], &[("T", "Clone + Default"), ("U", "")]),
+        ("<const N: usize>", "<N>", &[], &[("N", "usize")]),
+        ("<T = i32>", "<T>", &[], &[("T", "")]),
+        ("<'a, T: 'a>", "<'a, T>", &["'a"], &[("T", "'a")]),
+        ("<T, const N: usize = 3>", "<T, N>", &[], &[("T", ""), ("N", "usize")]),
+        ("<'a, 'b: 'a>", "<'a, 'b>", &["'a", "'b"], &[]),
+    ];
+    let counterparts: [(&str, &[&str]); 6] = [("B", &[]), ("B<T>", &[]), ("B<'a>", &["'a"]), ("B<'c>", &["'c"]), ("B<'a, 'c, T>", &["'a", "'c"]), ("B<i32>", &[])];
+    let kinds = ["owned_into", "ref_into", "from_owned", "from_ref", "owned_into_existing", "ref_into_existing",
+        "owned_try_into", "ref_try_into", "try_from_owned", "try_from_ref", "owned_try_into_existing", "ref_try_into_existing"];
+    // (attributes, expected predicates for counterpart B..)
+    let wheres: [(&str, Option<&str>); 4] = [("", None), ("#[where_clause(T: Copy)]\n", Some("T : Copy")), ("#[where_clause(@CP@| T: Send)]\n", Some("T : Send")), ("#[where_clause(T: Copy)]\n#[where_clause(@CP@| T: Send)]\n", Some("T : Send"))];
+    let sp = |s: &str| s.parse::<proc_macro2::TokenStream>().map(|t| t.to_string()).unwrap_or_default();
+    for (decl, args, these_lts, tparams) in decls {
+        for (cp, those_lts) in counterparts {
+            for kind in kinds {
+                for (wh, wexp) in wheres {
+                    let fall = kind.contains("try");
+                    let src = format!("{}#[{}({}{})]\nstruct A{} {{ x: i32 }}", wh.replace("@CP@", cp), kind, cp, if fall { ", E" } else { "" }, decl);
+                    r.cases += 1;
+                    let out = match expand(&src) { Ok(o) => o, Err(e) => { r.fail(&src, format!("does not expand: {}", e)); continue; } };
+                    let f: syn::File = match syn::parse_str(&out) { Ok(f) => f, Err(e) => { r.fail(&src, format!("the expansion is not a sequence of Rust items: {} :: {}", e, out.chars().take(300).collect::<String>())); continue; } };
+                    if f.items.len() != 1 { r.fail(&src, format!("{} items", f.items.len())); continue; }
+                    let i = match &f.items[0] { syn::Item::Impl(i) => i, _ => { r.fail(&src, "not an impl".into()); continue; } };
+                    let by_ref = kind.contains("ref");
+                    let is_from = kind.contains("from");
+                    // the lifetimes the fresh 'o2o has to outlive: those of the borrowed result
+                    let relevant: Vec<&str> = if !by_ref { vec![] } else if is_from { these_lts.to_vec() } else { those_lts.to_vec() };
+                    // declared parameters
+                    let mut lts: Vec<(String, String)> = vec![];
+                    let mut tps: Vec<(String, String)> = vec![];
+                    let mut bad = None;
+                    for p in &i.generics.params {
+                        match p {
+                            syn::GenericParam::Lifetime(l) => lts.push((ts(&l.lifetime), l.bounds.iter().map(ts).collect::<Vec<_>>().join(" + "))),
+                            syn::GenericParam::Type(t) => { if t.default.is_some() { bad = Some(format!("default on impl parameter {}", t.ident)); } tps.push((t.ident.to_string(), t.bounds.iter().map(ts).collect::<Vec<_>>().join(" + "))); }
+                            syn::GenericParam::Const(c) => { if c.default.is_some() { bad = Some(format!("default on impl parameter {}", c.ident)); } tps.push((c.ident.to_string(), ts(&c.ty))); }
+                        }
+                    }
+                    if let Some(b) = bad { r.fail(&src, b); continue; }
+                    let exp_tps: Vec<(String, String)> = tparams.iter().map(|(n, b)| (n.to_string(), sp(b))).collect();
+                    if tps != exp_tps { r.fail(&src, format!("type/const parameters declared on the impl: {:?}, the deriving type has {:?}", tps, exp_tps)); continue; }
+                    let mut exp_lts: Vec<String> = these_lts.iter().map(|s| s.to_string()).collect();
+                    for l in those_lts.iter() { if !exp_lts.contains(&l.to_string()) { exp_lts.push(l.to_string()); } }
+                    if !relevant.is_empty() { exp_lts.push("'o2o".into()); }
+                    let mut got_lts: Vec<String> = lts.iter().map(|x| x.0.clone()).collect();
+                    let mut e2 = exp_lts.clone();
+                    got_lts.sort(); e2.sort();
+                    if got_lts != e2 { r.fail(&src, format!("lifetimes declared on the impl: {:?}, expected {:?} (own, counterpart-only, 'o2o for a borrow tied to {:?})", got_lts, e2, relevant)); continue; }
+                    if let Some((_, b)) = lts.iter().find(|x| x.0 == "'o2o") {
+                        let mut g: Vec<String> = b.split(" + ").map(|x| x.to_string()).collect();
+                        let mut e: Vec<String> = relevant.iter().map(|x| x.to_string()).collect();
+                        g.sort(); e.sort();
+                        if g != e { r.fail(&src, format!("'o2o outlives {:?}, expected {:?}", g, e)); continue; }
+                    }
+                    // the two types of the header
+                    let tr = i.trait_.as_ref().map(|t| ts(&t.1)).unwrap_or_default();
+                    let selfty = ts(&i.self_ty);
+                    let own = format!("A {}", sp(args)).trim().to_string();
+                    let other = sp(cp);
+                    let amp = if !by_ref { String::new() } else if relevant.is_empty() { "& ".to_string() } else { "& 'o2o ".to_string() };
+                    let (exp_self, exp_arg) = if is_from { (own.clone(), format!("{}{}", amp, other)) } else { (format!("{}{}", amp, own), other.clone()) };
+                    let ns = |x: &str| x.replace(' ', "");
+                    let (selfty, exp_self, tr, exp_arg) = (ns(&selfty), ns(&exp_self), ns(&tr), ns(&exp_arg));
+                    if selfty != exp_self { r.fail(&src, format!("implemented for `{}`, expected `{}`", selfty, exp_self)); continue; }
+                    if !tr.ends_with(&format!("<{}>", exp_arg)) { r.fail(&src, format!("trait `{}`, expected its argument to be `{}`", tr, exp_arg)); continue; }
+                    let gw = i.generics.where_clause.as_ref().map(|w| w.predicates.iter().map(ts).collect::<Vec<_>>().join(" , "));
+                    if gw.as_deref() != wexp { r.fail(&src, format!("where clause {:?}, expected {:?}", gw, wexp)); continue; }
+                }
+            }
+        }
+    }
+}
+
 fn main() {
     panic::set_hook(Box::new(|_| {}));
     let suite = std::env::args().nth(1).unwrap_or_default();
@@ -372,7 +456,8 @@ fn main() {
     match suite.as_str() {
         "c08" => c08(&mut r),
         "c03" => c03(&mut r),
-        _ => { eprintln!("usage: structural c08|c03"); std::process::exit(2); }
+        "c11" => c11(&mut r),
+        _ => { eprintln!("usage: structural c08|c03|c11"); std::process::exit(2); }
     }
     println!("{{\"suite\":\"{}\",\"cases\":{},\"failures\":{}}}", suite, r.cases, r.fails.len());
     let cap = if std::env::var("STRUCTURAL_ALL").is_ok() { usize::MAX } else { 10 };
